@@ -15,4 +15,6 @@ else
   rm -f _CoqProject.new
   [ -f Makefile ] || coq_makefile -f _CoqProject -o Makefile >/dev/null
 fi
+# cap the memory of each coqc (a runaway proof search or vm_compute must fail, not thrash the machine)
+ulimit -v ${COQ_MEM_KB:-12000000} 2>/dev/null || true
 exec timeout "${COQ_BUILD_TIMEOUT:-2400}" make -j"${COQ_JOBS:-16}" "$@"
